@@ -34,8 +34,14 @@ ThreadApis == {"move_world", "share_world", "move_iter", "move_iter_mut", "move_
                "par_query", "par_query_mut", "schedule", "schedule_res", "move_world_res"}
 ThrCases == {[fam |-> "thr", k1 |-> "-", k2 |-> "-", same |-> FALSE, api |-> a, payload |-> p] :
                a \in ThreadApis, p \in {"ok", "nosend", "nosync"}}
-Cases == PairCases("vv") \cup PairCases("ve") \cup PairCases("ee") \cup ResCases \cup RepCases
-         \cup OutCases \cup ThrCases
+QResCases == {[fam |-> "qr", k1 |-> k1, k2 |-> k2, same |-> s, api |-> "-", payload |-> "-"] :
+               k1 \in {"ref", "mut"}, k2 \in {"ref", "mut"}, s \in BOOLEAN}
+(* sub-view k2 taken from a declared entry (super) view k1 on the same component: the sub-view must
+   not be stronger than the super-view *)
+SubCases == {[fam |-> "sub", k1 |-> k1, k2 |-> k2, same |-> TRUE, api |-> "-", payload |-> "-"] :
+               k1 \in Kinds, k2 \in Kinds}
+Cases == PairCases("vv") \cup PairCases("ve") \cup PairCases("ee") \cup PairCases("pv") \cup PairCases("sv")
+         \cup ResCases \cup QResCases \cup SubCases \cup RepCases \cup OutCases \cup ThrCases
 
 (* how the payload is reached from the other thread by each API *)
 ByShared(api) == api \in {"share_world", "move_iter", "move_entries", "share_entries", "par_query", "schedule", "schedule_res"}
@@ -43,13 +49,15 @@ IsSend(p) == p \in {"ok", "nosync"}
 IsSync(p) == p = "ok"
 
 MustReject(c) ==
-  CASE c.fam \in {"vv", "ve", "ee", "rr"} -> c.same /\ Aliasing("A", Mode(c.k1), "A", Mode(c.k2))
+  CASE c.fam \in {"vv", "ve", "ee", "rr", "pv", "sv", "qr"} -> c.same /\ Aliasing("A", Mode(c.k1), "A", Mode(c.k2))
+    [] c.fam = "sub" -> Mode(c.k2) = "mut" /\ Mode(c.k1) = "imm"
     [] c.fam = "rep" -> c.same /\ Aliasing("A", Mode(c.k1), "A", Mode(c.k2))   \* both results used together
     [] c.fam = "out" -> c.same          \* same = TRUE: the type is NOT in the registry / resources
     [] c.fam = "thr" -> IF ByShared(c.api) THEN ~IsSync(c.payload) ELSE ~IsSend(c.payload)
 (* a control: nothing conflicts, the program must be accepted (otherwise the generator is wrong) *)
 MustCompile(c) ==
-  CASE c.fam \in {"vv", "ve", "ee", "rr"} -> ~c.same
+  CASE c.fam \in {"vv", "ve", "ee", "rr", "pv", "sv", "qr"} -> ~c.same
+    [] c.fam = "sub" -> ~(Mode(c.k2) = "mut" /\ Mode(c.k1) = "imm")
     [] c.fam = "rep" -> ~c.same         \* same = FALSE: the first result is dropped before the second query
     [] c.fam = "out" -> ~c.same
     [] c.fam = "thr" -> c.payload = "ok"
